@@ -67,7 +67,7 @@ class AddSub(Sub):
     backends = ("py",)
     n = {"quick": 12000, "thorough": 400000}
     shards = {"quick": 4, "thorough": 16}
-    rule = "non-trivial: the shift wraps across midnight, or microseconds are involved, or the amount has mixed signs"
+    rule = "integer amounts and dyadic float seconds; non-trivial: the shift wraps across midnight, or microseconds are involved, or the amount has mixed signs"
 
     def strategy(self, ctx):
         return st.fixed_dictionaries({"t": tod, "amt": st.one_of(amount, amount, amount, amount_float)})
@@ -106,7 +106,8 @@ class Timedelta(Sub):
     backends = ("py",)
     n = {"quick": 8000, "thorough": 200000}
     shards = {"quick": 2, "thorough": 8}
-    rule = "non-trivial: wraps across midnight, or non-zero microseconds, or a day component (must be rejected)"
+    rule = ("the same amount as a native timedelta, a Duration, a Duration(hours=..), t2 - t and t.diff(t2); non-trivial: wraps across midnight, or non-zero microseconds, or a day "
+            "component (must be rejected)")
 
     def strategy(self, ctx):
         return st.fixed_dictionaries({"t": tod, "td": tdelta})
